@@ -141,6 +141,11 @@ def run(ctx):
     ctx.rule("R09.12", "GlobalContext.stop leaves nothing registered or queued and switches auto-start off, whatever was registered before", floor=4)
     context_stop_table(ctx, program, "R09.12")
 
+    ctx.rule("R09.13", "new subsystem: a manager stopped while its start loop is suspended in a trigger's start (reload/redefinition arriving then) starts no further "
+             "trigger - every trigger it did start is stopped", floor=2)
+    from .c15 import start_typestate
+    start_typestate(ctx, program, "R09.13")
+
     ctx.rule("R09.2", "cleanup loops that release per element never return or break on a missing element", floor=3)
     loops = 0
     for u in program.functions():
